@@ -12,6 +12,10 @@ pub trait TreeApi {
     const IW: usize;
     const HDR: usize;
     fn label() -> String;
+    /// number of low bytes of the key that its ordering looks at (all of them except for `IdTag`)
+    fn key_bytes() -> usize {
+        if Self::label().contains("idtag") { 4 } else { Self::key().0 }
+    }
     fn key() -> (usize, usize, bool);
     fn val() -> (usize, usize, bool);
     fn data_len(cap: usize) -> usize;
@@ -163,6 +167,8 @@ tree_api!(T32logu8, AVLTreeMut, AVLTree, 4, 24, u32, LogKey, u8);
 tree_api!(T32a32u64, AVLTreeMut, AVLTree, 4, 24, u32, A32, u64);
 tree_api!(T32u128u64, AVLTreeMut, AVLTree, 4, 24, u32, u128, u64);
 tree_api!(T32u32bps, AVLTreeMut, AVLTree, 4, 24, u32, u32, Bps);
+tree_api!(T32idtagu8, AVLTreeMut, AVLTree, 4, 24, u32, IdTag, u8);
+tree_api!(T8idtagu8, U8AVLTreeMut, U8AVLTree, 1, 8, u8, IdTag, u8);
 tree_api!(T8u8bps, U8AVLTreeMut, U8AVLTree, 1, 8, u8, u8, Bps);
 tree_api!(T8u128u8, U8AVLTreeMut, U8AVLTree, 1, 8, u8, u128, u8);
 tree_api!(T8a32a32, U8AVLTreeMut, U8AVLTree, 1, 8, u8, A32, A32);
@@ -177,6 +183,8 @@ pub struct Decoded {
     pub flh: usize,
     pub seq: usize,
     pub slots: usize,
+    /// mask selecting the part of a key its ordering looks at
+    pub kmask: i128,
     /// per slot (1-based index - 1): left, right, height, key, value
     pub recs: Vec<(usize, usize, usize, i128, i128)>,
 }
@@ -212,7 +220,9 @@ pub fn decode<A: TreeApi>(bytes: &[u8]) -> Decoded {
         }
         recs.push((r(0), r(1), r(2), key, le(&b[voff..voff + vs.min(15)]) as i128));
     }
-    Decoded { root: w(0), size: w(1), cap: w(2), flh: w(3), seq: w(4), slots, recs }
+    let kb = A::key_bytes();
+    let kmask = if kb >= 15 || ksg { -1i128 } else { (1i128 << (8 * kb)) - 1 };
+    Decoded { root: w(0), size: w(1), cap: w(2), flh: w(3), seq: w(4), slots, kmask, recs }
 }
 
 impl Decoded {
@@ -249,7 +259,7 @@ impl Decoded {
         }
         go(self, self.root, &mut seen, &mut out, 0)?;
         for w in out.windows(2) {
-            if !(w[0].1 < w[1].1) {
+            if !((w[0].1 & self.kmask) < (w[1].1 & self.kmask)) {
                 return Err(format!("keys out of order: {} then {}", w[0].1, w[1].1));
             }
         }
@@ -260,8 +270,10 @@ impl Decoded {
     }
     pub fn children(&self, key: i128) -> Option<(usize, usize)> {
         let mut i = self.root;
+        let key = key & self.kmask;
         while i != 0 && i <= self.slots {
             let (l, r, _, k, _) = self.recs[i - 1];
+            let k = k & self.kmask;
             if key < k {
                 i = l
             } else if key > k {
@@ -288,6 +300,12 @@ pub struct TreeSut<A: TreeApi> {
 }
 
 impl<A: TreeApi> TreeSut<A> {
+    fn keyed() -> bool {
+        A::key_bytes() < A::key().0
+    }
+    fn key_of(k: i128) -> i128 {
+        if Self::keyed() { k & ((1i128 << (8 * A::key_bytes())) - 1) } else { k }
+    }
     fn rec_size(&self) -> usize {
         A::data_len(1) - A::data_len(0)
     }
@@ -368,7 +386,13 @@ impl<A: TreeApi> Sut for TreeSut<A> {
             return v;
         }
         for k in &self.keys {
-            v.push(Op::new("ins", &[*k, self.ins_val(*k)]));
+            if Self::keyed() {
+                // the same id with two different tags: the second is a duplicate carrying other bytes
+                v.push(Op::new("ins", &[*k | (1i128 << 32), self.ins_val(*k)]));
+                v.push(Op::new("ins", &[*k | (2i128 << 32), self.ins_val(*k)]));
+            } else {
+                v.push(Op::new("ins", &[*k, self.ins_val(*k)]));
+            }
             v.push(Op::new("rem", &[*k]));
             if self.updates {
                 v.push(Op::new("upd", &[*k, self.upd_val(*k)]));
@@ -381,6 +405,12 @@ impl<A: TreeApi> Sut for TreeSut<A> {
             v.push(Op::new(n, &[]));
         }
         v.push(Op::new("dlen", &[(d.size + d.cap) as i128]));
+        if d.size == 0 {
+            // the pure size formula at large capacities (up to the index type's range)
+            for c in [255i128, 256, 65_535, 1 << 27, (1 << 31) - 1, 1 << 31, (1i128 << 32) - 1] {
+                v.push(Op::new("dlen", &[c]));
+            }
+        }
         if self.fill {
             v.push(Op::new("fill", &[self.fresh_base, (d.cap + 2) as i128]));
         }
@@ -543,7 +573,7 @@ impl<A: TreeApi> Sut for TreeSut<A> {
         }
         // C10: the decoder recovers exactly the contents the API reports
         if let Some(pe) = &post_entries {
-            let dm: BTreeMap<i128, i128> = pe.iter().filter(|(_, k, _)| self.keys.contains(k)).map(|(_, k, v)| (*k, *v)).collect();
+            let dm: BTreeMap<i128, i128> = pe.iter().map(|(_, k, v)| (Self::key_of(*k), *v)).filter(|(k, _)| self.keys.contains(k)).collect();
             if dm != q || pe.len() != qlen {
                 f.push(Finding { property: "C10", what: format!("after `{}` the format decoder finds {:?} ({} entries) but the API reports {:?} (len {})", op.text(), dm, pe.len(), q, qlen) });
             }
@@ -552,7 +582,8 @@ impl<A: TreeApi> Sut for TreeSut<A> {
         let opened = matches!(self.kind(op), Kind::Mutating) && op.name != "ext" && op.name != "init";
         let cap = dp.cap.max(if opened { dp.slots } else { 0 });
         let full = mlen >= cap;
-        let k = op.args.first().copied().unwrap_or(0);
+        let kfull = op.args.first().copied().unwrap_or(0);
+        let k = Self::key_of(kfull);
         let expected: Option<String> = match op.name {
             "ins" => {
                 if m.contains_key(&k) || full {
@@ -573,7 +604,18 @@ impl<A: TreeApi> Sut for TreeSut<A> {
                     Some("false".into())
                 }
             }
-            "low" | "rlow" => Some(opt(m.keys().next().copied())),
+            "low" | "rlow" => {
+                if Self::keyed() {
+                    // the stored key carries a tag the reference map does not track: compare ids
+                    let got = out.result.strip_prefix("some ").and_then(|s| s.parse::<i128>().ok()).map(Self::key_of);
+                    if got != m.keys().next().copied() {
+                        f.push(Finding { property: "C01", what: format!("`{}` returned {} but the minimum id is {:?}", op.text(), out.result, m.keys().next()) });
+                    }
+                    None
+                } else {
+                    Some(opt(m.keys().next().copied()))
+                }
+            }
             "len" | "rlen" => Some(mlen.to_string()),
             "cap" => Some(cap.to_string()),
             "rcap" => Some(dp.cap.to_string()),
@@ -613,7 +655,7 @@ impl<A: TreeApi> Sut for TreeSut<A> {
             match out.result.strip_prefix("some ").and_then(|s| s.parse::<usize>().ok()) {
                 None => f.push(Finding { property: "C01", what: format!("`{}` refused although the key is absent and {} of {} slots are used", op.text(), mlen, cap) }),
                 Some(i) => {
-                    if i == 0 || i > dq.slots || dq.recs[i - 1].3 != k || dq.recs[i - 1].4 != op.args[1] {
+                    if i == 0 || i > dq.slots || dq.recs[i - 1].3 != kfull || dq.recs[i - 1].4 != op.args[1] {
                         f.push(Finding { property: "C10", what: format!("`{}` returned index {} but that record does not hold the entry", op.text(), i) });
                     }
                 }
@@ -636,9 +678,9 @@ impl<A: TreeApi> Sut for TreeSut<A> {
         // C10: a live entry never moves to another record
         if let (Some(pe), Some(qe)) = (&pre_entries, &post_entries) {
             if op.name != "init" {
-                let before: BTreeMap<i128, usize> = pe.iter().map(|(i, k, _)| (*k, *i)).collect();
+                let before: BTreeMap<i128, usize> = pe.iter().map(|(i, k, _)| (Self::key_of(*k), *i)).collect();
                 for (i, k2, _) in qe {
-                    if let Some(j) = before.get(k2) {
+                    if let Some(j) = before.get(&Self::key_of(*k2)) {
                         if j != i {
                             f.push(Finding { property: "C10", what: format!("`{}` moved key {} from record {} to record {}", op.text(), k2, j, i) });
                         }
